@@ -266,6 +266,26 @@ func runC09(env *Env) {
 		}
 		in.WaitCease(tmoStep)
 	}})
+	{ // one token forks at two nodes in succession
+		p := &Prog{}
+		p.Node("start", "start")
+		p.Node("par", "F1")
+		p.Flow("start", "F1", "")
+		p.Node("task", "T")
+		p.Flow("F1", "T", "")
+		p.Node("end", "eA")
+		p.Flow("F1", "eA", "")
+		p.Node("par", "F2")
+		p.Flow("T", "F2", "")
+		for _, e := range []string{"eB", "eC"} {
+			p.Node("end", e)
+			p.Flow("F2", e, "")
+		}
+		progs = append(progs, prog{"a token forking twice", p, nil, func(in *Inst) {
+			in.Answer("T", tmoStep)
+			in.WaitCease(tmoStep)
+		}})
+	}
 	reps := 3
 	if env.Thorough() {
 		reps = 30
@@ -276,54 +296,95 @@ func runC09(env *Env) {
 			env.Current(cs)
 			defs, err := ParseDefs(pg.p.XML(""))
 			must(err)
-			ids := map[string]int{}
-			num := func(s string) int {
-				if v, ok := ids[s]; ok {
-					return v
-				}
-				ids[s] = len(ids) + 1
-				return ids[s]
+			// one renderer per subscriber: flows and nodes are numbered in the order of first appearance, so two
+			// subscribers that see the same sequence render it identically
+			type view struct {
+				ids     map[string]int
+				started map[int]bool
+				evs     []string
 			}
-			started := map[int]bool{}
-			var evs []string
-			var mu sync.Mutex
-			in, err := StartInst(defs, InstOpt{Vars: pg.vars, Raw: func(t tracing.ITrace) {
-				mu.Lock()
-				defer mu.Unlock()
+			render := func(v *view, t tracing.ITrace) {
+				num := func(s string) int {
+					if x, ok := v.ids[s]; ok {
+						return x
+					}
+					v.ids[s] = len(v.ids) + 1
+					return v.ids[s]
+				}
 				switch x := t.(type) {
 				case bpmn.NewFlowTrace:
 					f := num("f:" + x.FlowId.String())
-					started[f] = true
-					evs = append(evs, fmt.Sprintf("ENew %d", f))
+					v.started[f] = true
+					v.evs = append(v.evs, fmt.Sprintf("ENew %d", f))
 				case bpmn.VisitTrace:
-					evs = append(evs, fmt.Sprintf("EVisit %d", num("n:"+nodeId(x.Node))))
+					v.evs = append(v.evs, fmt.Sprintf("EVisit %d", num("n:"+nodeId(x.Node))))
 				case bpmn.LeaveTrace:
-					evs = append(evs, fmt.Sprintf("ELeave %d", num("n:"+nodeId(x.Node))))
+					v.evs = append(v.evs, fmt.Sprintf("ELeave %d", num("n:"+nodeId(x.Node))))
 				case bpmn.FlowTrace:
 					cont := 0
 					ann := []int{}
 					for _, s := range x.Flows {
 						f := num("f:" + s.Id().String())
-						if started[f] && cont == 0 {
+						if v.started[f] && cont == 0 {
 							cont = f
 						} else {
 							ann = append(ann, f)
 						}
 					}
-					evs = append(evs, fmt.Sprintf("EFlow %d %s", cont, natList(ann)))
+					v.evs = append(v.evs, fmt.Sprintf("EFlow %d %s", cont, natList(ann)))
 				case bpmn.TerminationTrace:
-					evs = append(evs, fmt.Sprintf("ETerm %d", num("f:"+x.FlowId.String())))
+					v.evs = append(v.evs, fmt.Sprintf("ETerm %d", num("f:"+x.FlowId.String())))
 				case bpmn.CancellationFlowTrace:
-					evs = append(evs, fmt.Sprintf("ETerm %d", num("f:"+x.FlowId.String())))
+					v.evs = append(v.evs, fmt.Sprintf("ETerm %d", num("f:"+x.FlowId.String())))
 				}
+			}
+			prompt := &view{ids: map[string]int{}, started: map[int]bool{}}
+			lagging := &view{ids: map[string]int{}, started: map[int]bool{}}
+			var mu sync.Mutex
+			in, err := StartInst(defs, InstOpt{Vars: pg.vars, NoStart: true, Raw: func(t tracing.ITrace) {
+				mu.Lock()
+				defer mu.Unlock()
+				render(prompt, t)
 			}})
 			must(err)
+			// a second subscriber that reads nothing until the run is over (a large buffer): it must find the same
+			// sequence, trace for trace, as the subscriber that kept up
+			late := in.P.Tracer().SubscribeChannel(make(chan tracing.ITrace, 1<<14))
+			must(in.P.StartAll(in.Ctx))
 			pg.run(in)
+			time.Sleep(2 * time.Millisecond)
+		drain:
+			for {
+				select {
+				case t, ok := <-late:
+					if !ok {
+						break drain
+					}
+					render(lagging, tracing.Unwrap(t))
+				default:
+					break drain
+				}
+			}
+			in.P.Tracer().Unsubscribe(late)
+			mu.Lock()
+			evs := append([]string{}, prompt.evs...)
+			mu.Unlock()
+			if k := len(lagging.evs); k < len(evs) {
+				evs = evs[:k] // the prompt subscriber may have gone on receiving while the other was drained
+			}
+			same := len(lagging.evs) == len(evs)
+			for i := 0; same && i < len(evs); i++ {
+				same = evs[i] == lagging.evs[i]
+			}
+			if !same {
+				rep.Violate("C09-same-sequence", cs, fmt.Sprintf("a subscriber that read the traces after the run found another sequence than the one that kept up: prompt %v, late %v", evs, lagging.evs))
+			}
+			gitems = append(gitems, "["+strings.Join(lagging.evs, ";")+"]")
 			in.Close()
 			time.Sleep(2 * time.Millisecond)
 			mu.Lock()
-			gitems = append(gitems, "["+strings.Join(evs, ";")+"]")
-			n := len(evs)
+			gitems = append(gitems, "["+strings.Join(prompt.evs, ";")+"]")
+			n := len(prompt.evs)
 			mu.Unlock()
 			rep.Evaluations++
 			rep.Nontrivial++
